@@ -202,26 +202,38 @@ def run(ctx):
         ci = [(bb, t) for bb, t in b.calls() if callee_key(t["callee"]).endswith("ThreadSpecificState::clone_instance")]
         occ_ok = False
         vac_ok = False
+        vac_seen = False
+        vac_bad = False
         for bb, path, s in return_sites(b):
             pass
-        # return place assignments
+        # return place assignments (directly, or through the temporaries an inlined helper's return goes through)
+        ret_locals = set(Slice(b, through_calls=False).run({"k": "copy", "place": {"l": 0, "p": []}})["locals"])
         for blk in b.blocks:
             if blk.cleanup:
                 continue
             t = blk.term
-            if t["k"] == "call" and t["dest"]["l"] == 0 and not t["dest"]["p"] and callee_key(t["callee"]).endswith("clone_instance"):
+            if t["k"] == "call" and (t["dest"]["l"] == 0 or t["dest"]["l"] in ret_locals) and not t["dest"]["p"] and callee_key(t["callee"]).endswith("clone_instance"):
                 sl = Slice(b).run(t["args"][0])
                 keys = {k.split("::")[-1] for k, _, _ in sl["calls"]}
                 if "get" in keys and ("entry" in keys or "OccupiedEntry" in str(sl["calls"])) or "get" in keys:
                     occ_ok = True
             for s in blk.stmts:
-                if s["k"] == "assign" and s["place"]["l"] == 0 and not s["place"]["p"] and s["rv"]["k"] == "use":
+                if s["k"] == "assign" and (s["place"]["l"] == 0 or s["place"]["l"] in ret_locals) and not s["place"]["p"] and s["rv"]["k"] == "use":
                     sl = Slice(b, through_calls=False).run(s["rv"]["op"])
                     if conv and any(k in ("std::rc::Rc::new", "std::sync::Arc::new") for k, _, _ in sl["calls"]):
                         # returned only on the vacant arm: the block must be dominated by the Vacant discriminant
                         ins = [bb for bb, t2 in b.calls() if t2["callee"].get("method") == "insert" and "VacantEntry" in callee_key(t2["callee"])]
                         dom = b.dominators(unwind=False)
-                        vac_ok = bool(ins) and any(i in dom[blk.idx] for i in ins)
+                        after_ins = set()
+                        for i in ins:
+                            after_ins |= b.successors_reach(i, unwind=False)
+                        if bool(ins) and any(i in dom[blk.idx] for i in ins):
+                            vac_seen = True
+                        elif blk.idx in after_ins or any(blk.idx in dom[i] for i in ins):
+                            pass   # a join after the insertion, or the creation chain before it
+                        else:
+                            vac_bad = True   # the fresh instance flows to the result on a path that never inserts it
+                        vac_ok = vac_seen and not vac_bad
         n_early = len([1 for bb, t in ci])
         ctx.ob("R5.create-outside-insert-under-lock", f"{mod}.occupied-returns-registered", occ_ok and vac_ok and n_early >= 2, b.loc(),
                f"occupied arm returns clone_instance() of the registered state: {occ_ok}; the fresh instance is returned only after VacantEntry::insert: {vac_ok}")
@@ -249,11 +261,22 @@ def run(ctx):
         ctx.missing("R7.exposed-family-comes-from-registry", "StaticInstances::get")
     else:
         ctx.fn(g)
-        sl_calls = calls_to(g, "StaticInstances::set_local")
-        ok = len(sl_calls) >= 1
-        det = [f"set_local sites {len(sl_calls)}"]
-        for bb, t in sl_calls:
-            sl = Slice(g).run(t["args"][1])
+        # evaluated on get() with set_local inlined: what is cached is what the closure that inserts into the thread-local map captures
+        from ..analysis import closure_capture_ops
+        gi = prog.inlined_body(g, pred=lambda cb: cb.name == "set_local")
+        cached = []
+        for c in prog.bodies:
+            if not c.is_closure or not any(t["callee"].get("method") == "insert" and "HashMap" in callee_key(t["callee"]) for _bb, t in c.calls()):
+                continue
+            for _bb, ops_ in closure_capture_ops(gi, c.key):
+                cached.append(ops_)
+        ok = len(cached) >= 1
+        det = [f"thread-local caching sites {len(cached)}"]
+        for ops_ in cached:
+            sl = {"calls": []}
+            for o in ops_:
+                r_ = Slice(gi).run(o)
+                sl["calls"] += r_["calls"]
             names = [k.split("::")[-1] for k, _b, _t in sl["calls"]]
             from_reg = "get_family_global" in names
             from_created = "try_initialize_global_registry" in names or any(n in ("family", "call_once", "call") for n in names)
